@@ -18,6 +18,7 @@ def parseTh (s : String) : Option Th :=
     some (.ingest (ph, id) (← tr.toNat?) (← now.toNat?) (← parseBool cov) (← parseBool probe) (← parseBool live) .start)
   | ["s", now, order] => do some (.sweeper (← now.toNat?) (← parseKeys order) .start)
   | ["h", ph, id, tr] => do some (.handler (ph, id) (← tr.toNat?) .start)
+  | ["c"] => some (.reload false)
   | _ => none
 
 def showEv : Ev → String
